@@ -67,6 +67,7 @@ FilterTree(f, xd) ==
       [] f.k = "ge"      -> Cons(2, 5, <<OctNode(f.attr), OctNode(f.v)>>, "seq")
       [] f.k = "le"      -> Cons(2, 6, <<OctNode(f.attr), OctNode(f.v)>>, "seq")
       [] f.k = "present" -> CtxOct(7, f.attr)
+      [] f.k = "other"   -> CtxOct(f.n, f.val)
       [] f.k = "approx"  -> Cons(2, 8, <<OctNode(f.attr), OctNode(f.v)>>, "seq")
       [] f.k = "ext"     -> Cons(2, 9, Opt(f.hasRule, CtxOct(1, f.rule)) \o Opt(f.hasAttr, CtxOct(2, f.attr))
                                         \o <<CtxOct(3, f.v)>>
@@ -83,7 +84,10 @@ CtlTree(c, xd) == Cons(0, USeq, <<OctNode(c.type)>> \o Opt(c.crit \/ xd, BoolNod
 ResultKids(r) == <<EnumNode(r.code), OctNode(r.matched), OctNode(r.diag)>>
                  \o Opt(r.hasRef, Cons(2, 3, MapSeq(r.refs, OctNode), "list"))
 
+\* AuthenticationChoice and Filter are extensible CHOICEs ("..."): an application-registered alternative is any other
+\* context-specific tag; the harness uses primitive ones, [k |-> "other", n, val]
 AuthTree(a) == IF a.k = "simple" THEN CtxOct(0, a.password)
+               ELSE IF a.k = "other" THEN CtxOct(a.n, a.val)
                ELSE Cons(2, 3, <<OctNode(a.mech)>> \o Opt(a.hasCreds, OctNode(a.creds)), "seq")
 
 PartialAttr(pa) == Cons(0, USeq, <<OctNode(pa.type), Cons(0, USet, MapSeq(pa.vals, OctNode), "list")>>, "seq")
@@ -137,6 +141,12 @@ Trailer(c) == CASE c = 0 -> <<>>
                 [] c = 2 -> <<128 + 31, 128 + 7, 104, 0>>            \* [1000] primitive, high tag number form, empty
                 [] c = 3 -> <<192 + 32 + 5, 0>>                      \* [PRIVATE 5] constructed, empty
                 [] c = 4 -> <<128 + 32 + 21, 3, 4, 1, 65>>           \* [21] constructed { OCTET STRING "A" }
+                \* tags whose NUMBER is that of a defined optional component but whose CLASS is not (an element the sequence does
+                \* not define must be skipped, whatever its number): BindResponse [7], ExtendedResponse [10] [11], ExtendedRequest [1]
+                [] c = 5 -> <<192 + 7, 1, 65>>                       \* [PRIVATE 7] primitive
+                [] c = 6 -> <<192 + 11, 1, 66>>                      \* [PRIVATE 11] primitive
+                [] c = 7 -> <<64 + 10, 1, 67>>                       \* [APPLICATION 10] primitive
+                [] c = 8 -> <<192 + 1, 1, 255>>                      \* [PRIVATE 1] primitive
 HasNeed(r) == "need" \in DOMAIN r
 
 RECURSIVE EncAltNode(_, _, _), EncAltKids(_, _, _, _, _)
@@ -251,6 +261,7 @@ DFilter(n, strict) ==
                                                    hasFin |-> s.hasFin, fin |-> s.fin]] ELSE Bad
     ELSE IF n.num = 7 /\ n.cons = 0 THEN [ok |-> TRUE, v |-> [k |-> "present", attr |-> n.val]]
     ELSE IF n.num = 9 /\ n.cons = 1 THEN DExt(n, strict)
+    ELSE IF n.num > 9 /\ n.cons = 0 THEN [ok |-> TRUE, v |-> [k |-> "other", n |-> n.num, val |-> n.val]]
     ELSE Bad
 
 \* RFC 2696 control value: SEQUENCE { size INTEGER, cookie OCTET STRING }
@@ -325,6 +336,7 @@ DAuth(n, strict) ==
             cr == IF hasC THEN DOct(n.kids[2]) ELSE [ok |-> TRUE, v |-> <<>>]
         IN  IF me.ok /\ cr.ok /\ ExtrasOK(n.kids, IF hasC THEN 3 ELSE 2, strict, {<<0, UOctets>>})
             THEN [ok |-> TRUE, v |-> [k |-> "sasl", mech |-> me.v, hasCreds |-> hasC, creds |-> cr.v]] ELSE Bad
+    ELSE IF ~n.bad /\ n.cls = 2 /\ n.cons = 0 /\ n.num \notin {0, 3} THEN [ok |-> TRUE, v |-> [k |-> "other", n |-> n.num, val |-> n.val]]
     ELSE Bad
 
 \* protocolOp; returns [ok, v] where v is the operation's record without id / controls
